@@ -51,6 +51,10 @@ T = {
  "C18": ("Static analysis: every use of the authenticated state in the session package is dominated (inter-procedurally, up to 4 frames, closures included) by s.state != nil or is reached only through a nil-safe getter's channel; Session.state is written only in handleLogin from a successful Backend.GetState; State.user and the state's user binding are written once; getUserID returns an id only on the true edge of connector.Authorize, waits for the jail first, and the maxLoginAttempts branch arms WaitGroup + loginJailTime timer whose callback releases it and resets the counter; CLOSE/UNSELECT always drop the snapshot. The jail duration itself (time) is not decided.",
          "Trusts go/ssa, static call resolution inside internal/session.",
          "inter-procedural dominance (guarded-by) + who-may-write + must-pass-through", "DESIGN.md 4/C18"),
+
+ "C14": ("Static analysis: regular expressions are built only from constants and QuoteMeta'd parts (no raw delimiter/name); INBOX and recovery-mailbox guards dominate the namespace writes; mailboxes_v2.name/remote_id are UNIQUE in the schema SQLite builds from the migrations; every mailbox-name argument handed to the state API originates from decodeMailboxName (incl. the LIST/LSUB reference); Rename does not use non-anchored substring replacement and getMatches always matches a mailbox together with its superiors. Correctness of % / * matching, implicit-parent bookkeeping and the subscription model are not decided.",
+         "Trusts go/ssa, SQLite schema introspection, value-origin walk.",
+         "value-origin (T-SOURCE) + dominance guards + schema introspection + structural shape rules", "DESIGN.md 4/C14"),
 }
 NA_REASON = {}
 checks = []
